@@ -8,6 +8,8 @@ import (
 	"os"
 	"go/token"
 	"go/types"
+	"encoding/json"
+	"reflect"
 	"strings"
 
 	"golang.org/x/tools/go/ssa"
@@ -93,6 +95,15 @@ func init() {
 		"os.LookupEnv":          func(fr *frame, a []value) value { return tuple{"", false} },
 		"syscall.Getenv":        func(fr *frame, a []value) value { return tuple{"", false} },
 		"crypto/rand.Read":      extRandRead,
+		// go:linkname pulls
+		"mime/multipart.readMIMEHeader": extLinkname("net/textproto", "readMIMEHeader"),
+		// GODEBUG settings: all at their defaults
+		"(*internal/godebug.Setting).Value":         func(fr *frame, a []value) value { return "" },
+		"(*internal/godebug.Setting).IncNonDefault": func(fr *frame, a []value) value { return nil },
+		"(*crypto/rand.reader).Read": func(fr *frame, a []value) value { return extRandRead(fr, a[1:]) },
+		"crypto/internal/boring/sig.StandardCrypto": func(fr *frame, a []value) value { return nil },
+		"crypto/internal/boring/sig.BoringCrypto":   func(fr *frame, a []value) value { return nil },
+		"crypto/internal/boring/sig.FIPSOnly":       func(fr *frame, a []value) value { return nil },
 		"encoding/json.Marshal": extJSONMarshal,
 		"encoding/json.Unmarshal": extJSONUnmarshal,
 		"strconv.ParseUint":     extParseUint,
@@ -1216,9 +1227,77 @@ func extJSONMarshal(fr *frame, args []value) value {
 	}
 	res, ok := fr.i.invoke(fr, it, "MarshalJSON")
 	if !ok {
+		if out, done := jsonFlatStruct(it); done {
+			return tuple{out, iface{}}
+		}
 		panic(engineError("json.Marshal of " + it.t.String() + " (no MarshalJSON method; reflection-based encoding is not modelled)"))
 	}
 	return res
+}
+
+// jsonFlatStruct encodes a struct whose exported fields are concrete strings, booleans or
+// integers (response envelopes) exactly as encoding/json does.
+func jsonFlatStruct(it iface) (value, bool) {
+	st, ok := it.t.Underlying().(*types.Struct)
+	if !ok {
+		return nil, false
+	}
+	sv, ok := it.v.(structure)
+	if !ok || len(sv) != st.NumFields() {
+		return nil, false
+	}
+	var sb strings.Builder
+	sb.WriteByte('{')
+	first := true
+	for f := 0; f < st.NumFields(); f++ {
+		fld := st.Field(f)
+		if !fld.Exported() {
+			continue
+		}
+		name := fld.Name()
+		tag := reflect.StructTag(st.Tag(f)).Get("json")
+		if tag == "-" {
+			continue
+		}
+		if tag != "" {
+			parts := strings.Split(tag, ",")
+			if len(parts) > 1 {
+				return nil, false // omitempty, string: not modelled
+			}
+			if parts[0] != "" {
+				name = parts[0]
+			}
+		}
+		var enc []byte
+		switch v := sv[f].(type) {
+		case string:
+			enc, _ = json.Marshal(v)
+		case bool:
+			enc, _ = json.Marshal(v)
+		case int:
+			enc, _ = json.Marshal(v)
+		case int64:
+			enc, _ = json.Marshal(v)
+		case uint64:
+			enc, _ = json.Marshal(v)
+		default:
+			return nil, false
+		}
+		if !first {
+			sb.WriteByte(',')
+		}
+		first = false
+		k, _ := json.Marshal(name)
+		sb.Write(k)
+		sb.WriteByte(':')
+		sb.Write(enc)
+	}
+	sb.WriteByte('}')
+	out := make([]value, sb.Len())
+	for j := 0; j < sb.Len(); j++ {
+		out[j] = sb.String()[j]
+	}
+	return out, true
 }
 
 // encoding/json.Unmarshal into a value whose type provides UnmarshalJSON.
@@ -1384,6 +1463,21 @@ func reflectTagJSON(tag string) string {
 // crypto/rand.Read (M-RAND): nonces have no functional role in git-bug; the bytes are a
 // fixed pattern so that native replays, which draw real random bytes, cannot diverge on
 // anything that depends on them being equal to the model's.
+// extLinkname forwards a body-less //go:linkname declaration to the function it names.
+func extLinkname(pkgPath, name string) func(fr *frame, args []value) value {
+	return func(fr *frame, args []value) value {
+		pkg := fr.i.prog.ImportedPackage(pkgPath)
+		if pkg == nil {
+			panic(engineError(pkgPath + " not loaded"))
+		}
+		fn := pkg.Func(name)
+		if fn == nil {
+			panic(engineError("no function " + pkgPath + "." + name))
+		}
+		return call(fr.i, fr, 0, fn, args)
+	}
+}
+
 func extRandRead(fr *frame, args []value) value {
 	b := args[0].([]value)
 	for j := range b {
